@@ -49,7 +49,8 @@ def _c01():
 
 def _c05():
     import number as nk
-    return {"builders": [nk.build], "level": "proof", "explanation": "Boxed_Number::go / unary oper, all instantiations"}
+    return {"builders": [nk.build], "level": "proof", "explanation": "Boxed_Number::go / unary oper, all instantiations",
+            "replay_fn": nk.replay_fn, "replay_file_fn": nk.replay_file}
 
 
 PROPS = {"C20": _c20, "C01": _c01, "C05": _c05}
